@@ -125,10 +125,12 @@ Assignments(msg, variant, depth) ==
     IN {a \in Product(leaves, Len(leaves)) :
             Cardinality({i \in DOMAIN leaves : a[leaves[i].name] # DefaultClass(leaves[i])}) <= depth}
 
-(* The API refuses a request whose signature is the empty string (error code 2) instead of passing it on. *)
-RefusedWhenEmpty == {"signature"}
+(* The API refuses a request whose signature is the empty string, or whose encrypted blob has no bytes (since the repair of *)
+(* F-C07-2; a client never emits one: the blob carries at least the 16-byte authentication tag), with error code 2 instead *)
+(* of passing it on.                                                                                                        *)
+RefusedWhenEmpty == {"signature", "encrypted_blob"}
 EMPTY_FIELD == 2
-Refused(a) == \E n \in DOMAIN a : n \in RefusedWhenEmpty /\ a[n] = "empty"
+Refused(a) == \E n \in DOMAIN a : n \in RefusedWhenEmpty /\ a[n] \in {"empty", "len0"}
 
 DefaultAssignment(msg, variant) ==
     [n \in LeafNames(msg, variant) |-> DefaultClass(LeafByName(msg, variant, n))]
